@@ -106,7 +106,7 @@ CHECKS: dict[str, tuple[str, str, str, str]] = {
         " Project.license_map into it and compares with `bad iff neither SPDX nor LicenseRef-` over all cells, the"
         " used/unused comprehensions as boolean formulas, the LICENSES/** scan table (skip, no-extension, stem fallback,"
         " duplicate, register), the LicenseRef- language (DFA equivalence, identifiers of any length), and absence of"
-        " case folding on the lint path. license_expression's license_keys (library) is not decided. LICENSES/ entries: bad iff not in the licence map, deprecated iff the map marks it - independent of any other attribute of the entry.",
+        " case folding on the lint path. license_expression's license_keys (library) is not decided. LICENSES/ entries: bad iff not in the licence map, deprecated iff the map marks it - independent of any other attribute of the entry. Inherits C02, C03, C04 (which identifiers are used at all).",
         "Trusted: ast, sa/tab.py, sa/relang.py, sa/fold.py. Deprecated/bad classification of LICENSES/ entries is in C01-R3.",
         "DESIGN.md §3 C06",
     ),
@@ -141,7 +141,7 @@ CHECKS: dict[str, tuple[str, str, str, str]] = {
         " caller; and for the command: usage errors first, '+' stripped before use, --all = report.missing_licenses,"
         " every failure handler sets a non-zero code and stays in the loop, exit with the accumulated code; and the"
         " default destination as a decision table: <root>/LICENSES/<id>.txt unless the root itself is a LICENSES directory"
-        " without VCS (an outcome that depends on any other condition is a violation). Other network faults are not modelled.",
+        " without VCS (an outcome that depends on any other condition is a violation). Other network faults are not modelled. Inherits C06 (download --all supplies what lint reports missing).",
         "Trusted: ast, sa/tab.py, syntactic table of Path/shutil mutators.",
         "DESIGN.md §3 C19",
     ),
@@ -198,7 +198,7 @@ CHECKS: dict[str, tuple[str, str, str, str]] = {
         " VCS query; an effect inside a helper whose target is the helper's own parameter is lifted through every call"
         " site; download's refusal of an existing destination dominates every write (table shared with C19); the written paths derive from the named files / covered children / their .license siblings. This"
         " decides 'which code can touch the tree' for all inputs; OS-level metadata effects and the explicitly named"
-        " symlink case are not decided. The project root reported by the VCS is used verbatim.",
+        " symlink case are not decided. The project root reported by the VCS is used verbatim. Inherits C03 (recursive annotate touches exactly the covered files).",
         "Trusted: ast, mypy's resolution, table T1, the read-only VCS query whitelist. Unresolved calls are listed in the evidence (floor 25).",
         "DESIGN.md §3 C15",
     ),
